@@ -45,6 +45,10 @@ def solve_static(spec, fit):
             out["pressure"] = {cid: c.pressure for cid, c in fr.cells.items()}
         except ValueError:
             out["pressure"] = None
+        # pressures are determined only on a tissue whose internal interfaces link the cells into one group (C04)
+        if out["pressure"] is not None and not impl.pressure_connected(fr):
+            out["pressure"] = None
+            out["pressure_undetermined"] = True
     A = np.vstack([np.hstack([M, np.ones((M.shape[0], 1))]), np.hstack([np.ones(M.shape[1]), [0.0]])]) if M.size else np.zeros((1, 1))
     sv = np.linalg.svd(A, compute_uv=False)
     out["cond"] = float(sv[0] / sv[-1]) if sv[-1] > 0 else float("inf")
